@@ -34,6 +34,12 @@ class Fut:
         self._done = True
 
     def done(self):
+        # a job on another thread may finish between any two looks at it: the harness may let a pending job complete at
+        # the very moment it is observed
+        if not self._done and WORLD.get("observe") is not None and WORLD["observe"](self):
+            srv = WORLD.get("cur")
+            if srv is not None:
+                run_fut(srv, self)
         return self._done
 
     def exception(self):
@@ -146,9 +152,12 @@ class Xfer(Harness):
         if tier == "thorough":
             lists += [["transmit", "transmit-again", "purge-target"], ["transmit", "fetch", "purge-source-after-arrival"], ["fetch", "transmit", "transmit-again"],
                       ["transmit-back", "transmit-E", "transmit"], ["transmit-E", "transmit", "fetch"]]
+        for cl in (["transmit"], ["fetch"], ["transmit", "transmit-E"]):
+            base = {"commands": cl, "F": 1, "S": 3 if tier == "quick" else 4, "spont": True}
+            out += [{**base, "_prefix": p} for p in split_prefixes(self.body, base, 8)]
         for cl in lists:
             base = {"commands": cl, "F": F if len(cl) < 3 else F - 1, "S": S if len(cl) < 3 else S - 1}
-            out += [{**base, "_prefix": p} for p in split_prefixes(self.body, base, (24 if len(cl) >= 2 else 8) if tier == "quick" else 48)]
+            out += [{**base, "_prefix": p} for p in split_prefixes(self.body, base, ((64 if "transmit-back" in cl else 24) if len(cl) >= 2 else 8) if tier == "quick" else 64)]
         return out
 
     def budget(self, tier):
@@ -261,6 +270,19 @@ class Xfer(Harness):
 
             maybe_issue_next()
             grace = 4_100_000_000
+            WORLD["observe"] = None
+            if params.get("spont"):
+                # the k-th look at a still-running job is the moment it finishes
+                kth = ch.pick(5, "job_finishes_at_observation") - 1
+                seen_obs = {"n": 0}
+
+                def observe(fut):
+                    if kth < 0:
+                        return False
+                    seen_obs["n"] += 1
+                    return seen_obs["n"] - 1 == kth
+
+                WORLD["observe"] = observe
             for s in range(params["S"]):
                 opts = ["stepA", "stepB", "stepC", "clock"]
                 if A.ds_proc_tp.pending():
@@ -340,9 +362,13 @@ class Xfer(Harness):
                         raise Violation("transferred-copy-differs", f"{ds}: {srv._store.data[k2]!r}")
                     if published(srv, ds) != 1:
                         raise Violation("arrival-announced-wrong-number-of-times", f"{ds}: {published(srv, ds)} announcements")
+            WORLD["observe"] = None
             for srv in (A, B):
                 if srv.ds_proc_tp.pending() or srv.futs_in_progress:
                     raise Violation("jobs-left-running-at-quiescence", srv.host)
+                for tidx, (cmd, at) in srv.awaiting_confirmation.items():
+                    if at == -1 and cmd not in srv.futs_in_progress:
+                        raise Violation("completed-send-never-recorded", f"{srv.host}: transfer {tidx} was sent but its completion time was never noted, so a lost payload or confirmation can not be retried")
 
     @staticmethod
     def _is_ack(frames):
